@@ -40,7 +40,7 @@ ASSUMPTIONS = [
 ]
 SHARDS = {'quick': 4, 'thorough': 16}
 TIMEOUT = {'quick': 900, 'thorough': 3600}
-FLOORS = {'fault_fired:overlapping-calls-inside-a-procedure': 30, 'fault_fired:overlapping-copies': 60, 'fault_fired:ackloss': 30, 'faults_fired': 300, 'request_kinds': 6, 'fast_path_submissions': 20, 'multi_bunch_submissions': 20, 'later_updates': 20, 'job_id_agreements_checked': 300, 'fault_free_runs_judged': 100,
+FLOORS = {'foreign_updates_with_job_groups_interleaved': 100, 'fault_fired:overlapping-calls-inside-a-procedure': 30, 'fault_fired:overlapping-copies': 60, 'fault_fired:ackloss': 30, 'faults_fired': 300, 'request_kinds': 6, 'fast_path_submissions': 20, 'multi_bunch_submissions': 20, 'later_updates': 20, 'job_id_agreements_checked': 300, 'fault_free_runs_judged': 100,
           'consecutive_fast_path_updates_from_one_batch_object': 4}
 
 
@@ -396,6 +396,18 @@ def run(ctx):
                 ctx.count('fault_fired:' + ('overlapping-calls-inside-a-procedure' if f[2] == 'sqloverlap' else 'overlapping-copies' if f[2].startswith('overlap') else f[2]))
                 ctx.seen('fault_sites', f'{f[1]}:{f[2]}')
             n_foreign = sum(u[3] for u in s['updates'] if u[7] and u[6])  # jobs of foreign updates that were really committed
+            n_foreign_groups = sum(u[5] for u in s['updates'] if u[7] and u[6])
+            abandoned_with_groups = [u for u in s['updates'] if u[7] and not u[6] and u[5] > 0]
+            if err is not None and abandoned_with_groups and 'job group specs were not submitted in order' in str(err):
+                # the other client's update reserved job-group ids and was refused / abandoned before inserting them: the hole
+                # makes the service refuse this client's next job-group bunch.  The statement promises nothing about another
+                # client's abandoned update; nothing of this submission may have been duplicated, which is all that is judged.
+                ctx.count('own_submission_refused_behind_a_foreign_abandoned_update')
+                if s['n_batches'] != sum0['n_batches']:
+                    ctx.violation('duplicate-batch', f'{s["n_batches"]} batches instead of {sum0["n_batches"]}', desc)
+                if any(len(v) != 1 for v in s['uid_to_job'].values()):
+                    ctx.violation('duplicate-or-lost-jobs', 'a job of the refused submission exists twice', desc)
+                continue
             if err is not None:
                 ctx.violation('submission-fails-under-retry/' + type(err).__name__, f'{type(err).__name__}: {str(err)[:200]} with faults {fired}', desc)
                 continue
@@ -407,8 +419,8 @@ def run(ctx):
                 ctx.violation('duplicate-update', f'{len(own_updates)} updates of the client instead of {len(own_updates0)}', desc)
             if s['n_jobs_own'] != sum0['n_jobs_own'] or any(len(v) != 1 for v in s['uid_to_job'].values()):
                 ctx.violation('duplicate-or-lost-jobs', f'{s["n_jobs_own"]} job rows for {len(s["uid_to_job"])} distinct jobs (twin: {sum0["n_jobs_own"]})', desc)
-            if s['n_groups'] != sum0['n_groups']:
-                ctx.violation('duplicate-or-lost-job-groups', f'{s["n_groups"]} groups instead of {sum0["n_groups"]}', desc)
+            if s['n_groups'] != sum0['n_groups'] + n_foreign_groups:
+                ctx.violation('duplicate-or-lost-job-groups', f'{s["n_groups"]} groups instead of {sum0["n_groups"]} + {n_foreign_groups} of the other client', desc)
             if s['n_parents_own'] != sum0['n_parents_own']:
                 ctx.violation('duplicate-or-lost-dependencies', f'{s["n_parents_own"]} dependency rows instead of {sum0["n_parents_own"]}', desc)
             # ranges contiguous, disjoint, increasing in update id
@@ -433,7 +445,7 @@ def run(ctx):
                 ctx.count('job_id_agreements_checked')
                 if len(rows) == 1 and rows[0][1] != jid:
                     ctx.violation('client-job-id-differs-from-server', f'job {uid}: client computed id {jid}, server row has {rows[0][1]} (faults {fired})', desc)
-            if n_foreign == 0 and s['parents_own'] != sum0['parents_own']:
+            if not any(u[7] for u in s['updates']) and s['parents_own'] != sum0['parents_own']:  # (a foreign update shifts the ids)
                 ctx.violation('dependencies-differ-from-twin', f'dependency edges differ from the fault-free run', desc)
 
 
